@@ -351,7 +351,7 @@ def judge(case, ctx):
         missing = case.get('missing')
         mkw = dict(kw)
         if missing is not None:
-            mkw['missing'] = missing
+            mkw['missing'] = util.fresh(missing)     # equal to the cells, not the same object
             ctx.seen('mergeduplicates:non-default-missing')
         if any(len(r) < len(hdr) for r in rows):
             ctx.seen('mergeduplicates:short-rows')
